@@ -21,7 +21,7 @@
     `listPushHostlist (fixed := false)` is the unchanged retry loop of opt.c.  Which forms /repo
     contains is PROBED by the check on every run.
 -/
-import PdshVerif.Hostlist.Basic
+import PdshVerif.Hostlist.Push
 
 namespace PdshVerif.Hostlist.Print
 open PdshVerif.Hostlist
@@ -304,6 +304,30 @@ def shiftRangeBuf (rs : List HRange) : Buf × Res := rangedStringL SHIFTRANGEBUF
 /-- `hostlist_next_range`: `_get_bracketed_list(i->hl, &j, MAXHOSTRANGELEN, buf)`, then `strdup(buf)` -/
 def nextRangeBuf (cur : HRange) (rest : List HRange) : Buf × Nat × List HRange :=
   getBracketedList Buf.empty 0 PdshVerif.Gen.MAXHOSTRANGELEN cur rest
+
+/-- `hostlist_shift_range` until NULL: each call moves the first record and the records that follow it
+    as long as they are `hostrange_within_range` of `hltmp->hr[0]` into a fresh list (through
+    `hostlist_push_range`, i.e. with tail coalescing) and returns that list's compressed text from
+    `char buf[1024]` (silently cut when longer).  One entry per call: (records of `hltmp`, buffer). -/
+def shiftRangeCalls : Nat → List HRange → List (List HRange × Buf)
+  | 0, _ => []
+  | _ + 1, [] => []
+  | f + 1, r0 :: rest =>
+    let grp := r0 :: rest.takeWhile (withinRange r0)
+    let tmp := (grp.foldl pushRange HL.new).ranges.toList
+    (tmp, (shiftRangeBuf tmp).1) :: shiftRangeCalls f (rest.dropWhile (withinRange r0))
+
+/-- `hostlist_pop_range` until NULL: the same from the tail (`hostrange_within_range(tail, hr[i])`
+    walking backwards), printed from `char buf[MAXHOSTRANGELEN + 1]` -/
+def popRangeCalls : Nat → List HRange → List (List HRange × Buf)
+  | 0, _ => []
+  | f + 1, rs =>
+    match rs.reverse with
+    | [] => []
+    | t :: before =>
+      let grp := (t :: before.takeWhile (withinRange t)).reverse
+      let tmp := (grp.foldl pushRange HL.new).ranges.toList
+      (tmp, (popRangeBuf tmp).1) :: popRangeCalls f (before.dropWhile (withinRange t)).reverse
 
 /-! ### one host name into a heap block: `hostlist_next`, `_hostrange_string` (`hostlist_nth`),
     `hostrange_shift`, `hostrange_pop` -/
